@@ -373,18 +373,33 @@ def h_autoreg(eng, case):
                 rep, st = make_response(eng, 'ok', enc.parse_interest(wire)[0], front)
                 await app._receive(6, rep)
 
+    per_conn = []
+    problems = []
+
     async def main(loop):
         _jitter_clock(eng, loop)
         fw = asyncio.ensure_future(forwarder())
-        ml = asyncio.ensure_future(app.main_loop())
-        await vloop.sleep_until(loop, loop.at_ms(3000))
+        for k in range(case.get('connections', 1)):
+            n0 = len(cmds)
+            ml = asyncio.ensure_future(app.main_loop())
+            await vloop.sleep_until(loop, loop.at_ms(3000 * (k + 1)))
+            app.shutdown()
+            try:
+                await ml
+            except Exception as e:
+                problems.append((k, exc_sig(e)))
+            per_conn.append(cmds[n0:])
+            for _ in range(3):
+                await asyncio.sleep(0)
         fw.cancel()
-        app.shutdown()
-        await ml
-    loop, r, err = appenv.run(eng, main, max_steps=20000)
-    got = sorted(bytes(bwrap(c)) if not isinstance(c, bytes) else c for cmd in cmds for c in (cmd['prefix'] or [])[:1])
+    loop, r, err = appenv.run(eng, main, max_steps=40000)
+    for k, sig in problems:
+        eng.fail('routes-registered-once', 'connection-%d-main-loop-raises:%s' % (min(k, 1), sig))
     exp = sorted(b'\x08\x02r%d' % i for i in range(n))
-    eng.check(got == exp, 'routes-registered-once', {'got': repr(got), 'expected': repr(exp)})
+    for k, cc in enumerate(per_conn):
+        got = sorted(bytes(bwrap(c)) if not isinstance(c, bytes) else c for cmd in cc for c in (cmd['prefix'] or [])[:1])
+        eng.check(got == exp, 'routes-registered-once', {'connection': k, 'got': repr(got), 'expected': repr(exp)},
+                  sig='connection-%d' % min(k, 1))
     eng.reach('end')
 
 
@@ -534,6 +549,10 @@ def cases(tier, seed):
                                'uri': True}))
         cs.append(('command', {'legacy': legacy, 'module': 'strategy-choice', 'verb': 'set', 'name': [1], 'fields': [],
                                'strategy': True}))
+    for front in ('v2', 'v1'):
+        # the same application object connected twice: the declared routes are registered again
+        cs.append(('autoreg', {'front': front, 'routes': 1, 'connections': 2}, {'weight': 20 if front == 'v2' else 200,
+                                                                                'split_depth': 4}))
     for front in ('v2', 'v1'):
         for n in (1, 2):
             cs.append(('autoreg', {'front': front, 'routes': n}, {'weight': 10 if front == 'v2' else 200,
